@@ -80,6 +80,23 @@ def scaled(R, x, M):
 def check_float_to_uint(rep, S, key, b, v, x, dst, loc):
     R = S.R
     M = umax(dst)
+    # extended-real and end-point runs of the same body (constant folding through the bit manipulation)
+    from . import rng
+    from .sym import NAN, PINF, NINF
+    for name, val, want in (("NaN", NAN, M), ("+inf", PINF, M), ("-inf", NINF, 0), ("0", S.ctx.num(0), 0), ("1", S.ctx.num(1), M),
+                            ("-200", S.ctx.num(-200), 0), ("2.5", S.ctx.num(Fr(5, 2)), M), ("0.5", S.ctx.num(Fr(1, 2)), None)):
+        try:
+            r, _ = S.ev.eval_body(b, [val])
+            lo, hi = rng.interval(r, rng.Env())
+            if want is None:
+                ok = lo == hi and abs(lo - Fr(M, 2)) <= (1 if M < 2 ** 53 else Fr(M, 2 ** 52))
+                exp_s = "nearest to MAX/2"
+            else:
+                ok = lo == hi == want
+                exp_s = str(want)
+            rep.ob("STIM-ENDS", "stimulus:%s:at:%s" % (key, name), ok, "%s -> %s (expected %s)" % (name, lo if lo == hi else (lo, hi), exp_s), loc)
+        except (Opaque, poly.TooBig, rng.Unknown, rng.RangeViolation) as ex:
+            rep.fail("STIM-ENDS", "stimulus:%s:at:%s" % (key, name), "not foldable: %s" % ex, loc)
     forms = []
     for k, bits in K.items():
         if M < 2 ** k:  # 2^k + S < 2^(k+1): the low mantissa bits of the sum are the rounded integer
